@@ -64,6 +64,8 @@ def gen(seed, run, sub="files", tier="quick"):
             ops.append(["add", r.randrange(len(writers))])
         elif u < 0.72:
             ops.append(["remove", r.randrange(len(writers))])
+        elif u < 0.75:
+            ops.append(["wdisc", r.randrange(len(writers))])
         elif u < 0.82:
             ops.append(["flush"])
         elif u < 0.92:
@@ -74,7 +76,7 @@ def gen(seed, run, sub="files", tier="quick"):
     ops.append(["flush"] if r.random() < 0.5 else ["observe"])
     ops.append(["teardown"])
     scn = {
-        "lane": "c14", "sub": sub, "line_ending": r.choice(["os", "\\n", "\\r\\n"]), "writers": writers,
+        "lane": "c14", "sub": sub, "line_ending": r.choice(["os", "\\n", "\\r\\n", "\\r\\n", "\\r"]), "writers": writers,
         "ops": ops, "draws": common.gen_draws(r) if sub == "mixed" else {},
         "cfg": {"greeting": r.choice(["start", ""]), "boot": 0.0, "drop_while_booting": False,
                 "resend_with_ok": True},
@@ -338,6 +340,15 @@ def execute(scn, guide=None, keep=False):
                 elif kind == "halt_seq":
                     g.emergency_halt(op[1])
                     absorb(4)
+                elif kind == "wdisc":
+                    # the application disconnects one writer itself (FileWriter reopens lazily)
+                    w = pool[op[1]]
+                    if w.kind != "serial":
+                        w.obj.disconnect()
+                        if w.kind in PATH_KINDS:
+                            w.open = False
+                        if w.kind != "custom":
+                            check_equal(w, "writer-disconnect")
                 elif kind == "flush":
                     g.flush()
                     state["flushes"] += 1
